@@ -62,6 +62,12 @@ def concretize(v, model):
         r = _ev(model, v.z)
         val = r.as_signed_long() if v.signed else r.as_long()
         return getattr(np, v.dtype_name)(val)
+    if isinstance(v, np.ndarray) and v.dtype == object:
+        flat = [concretize(x, model) for x in v.flat]
+        try:
+            return np.array(flat).reshape(v.shape)
+        except Exception:
+            return np.array(flat, dtype=object).reshape(v.shape)
     if isinstance(v, A.SArr):
         n = _ev(model, v.n)
         if not z3.is_int_value(n) or n.as_long() > MAXLEN or n.as_long() < 0:
@@ -167,6 +173,15 @@ class FunctionContract:
     def samples(self, rng):
         return iter(())
 
+    case = None
+
+    def cases(self, tier):
+        """bounded jobs: list of case parameters (shapes); each is explored separately, self.case is set"""
+        return [None]
+
+    def case_label(self):
+        return "" if self.case is None else "[%s]" % (self.case,)
+
     def exclusions(self, **a):
         """extra preconditions from known findings (set by the runner)"""
         return []
@@ -187,12 +202,19 @@ def run_contract(cls, tier="quick", seed=0, exclusions=None):
     res = JobResult(job=fc.name, target=fc.target, level=fc.level, bound=fc.bound, prop=fc.prop,
                     obligations=[], failures=[], crashed=None, paths=0, solver_s=0.0, queries=0,
                     assumptions=list(fc.assumptions), native_runs=0, native_failures=[], vacuity=None)
-    try:
-        _run_symbolic(fc, res, tier, exclusions or [])
-    except Unsupported as e:
-        res["crashed"] = "Unsupported: %s" % e
-    except Exception:
-        res["crashed"] = traceback.format_exc()
+    cases = fc.cases(tier)
+    for case in cases:
+        fc.case = case
+        try:
+            _run_symbolic(fc, res, tier, exclusions or [])
+        except Unsupported as e:
+            res["crashed"] = "Unsupported: %s%s" % (e, "" if case is None else " [case %s]" % (case,))
+        except Exception:
+            res["crashed"] = traceback.format_exc()
+        if res["crashed"]:
+            break
+    fc.case = None
+    res["cases"] = len(cases)
     try:
         _run_native(fc, res, tier, seed, exclusions or [])
     except Exception:
@@ -201,11 +223,13 @@ def run_contract(cls, tier="quick", seed=0, exclusions=None):
     return res
 
 
-def _excl_pred(exclusions, a, native):
+def _excl_pred(exclusions, a, native, fc=None):
     """conjunction of NOT(excluded_when) over active known findings"""
     preds = []
     for ex in exclusions:
         env = dict(S.__dict__)
+        if fc is not None:
+            env.update({k: v for k, v in vars(sys.modules[type(fc).__module__]).items() if not k.startswith("__")})
         env.update(a)
         env["np"] = np
         preds.append(S.NOT(eval(ex["excluded_when"], env)))
@@ -226,7 +250,7 @@ def _run_symbolic(fc, res, tier, exclusions):
             holder["a"] = a
             with spec_eval():
                 E.assume(zbool(fc.requires(**a)))
-                for p in _excl_pred(exclusions, a, False):
+                for p in _excl_pred(exclusions, a, False, fc):
                     E.assume(zbool(p))
                 specs = fc.loop_specs(a)
             if not E.feasible():
@@ -247,7 +271,7 @@ def _run_symbolic(fc, res, tier, exclusions):
             if p.kind == "return":
                 cl = fc.ensures(p.value, **a)
                 for cname, c in cl.items():
-                    ob = E.prove("%s:post.%s" % (fc.name, cname), zbool(c), assume_after=False)
+                    ob = E.prove("%s:post.%s%s" % (fc.name, cname, fc.case_label()), zbool(c), assume_after=False)
                     _attach(ob, fc, a, E)
             else:
                 exc = p.value
@@ -272,13 +296,13 @@ def _run_symbolic(fc, res, tier, exclusions):
     for ob in E.obligations:
         if ob.status != "unsat" and not hasattr(ob, "_done"):
             _attach(ob, fc, a, E)
-    res["paths"] = len(paths)
-    res["path_kinds"] = {}
+    res["paths"] = res.get("paths", 0) + len(paths)
+    res["path_kinds"] = res.get("path_kinds") or {}
     for p in paths:
         key = p.kind if p.kind != "raise" else "raise:" + type(p.value).__name__
         res["path_kinds"][key] = res["path_kinds"].get(key, 0) + 1
-    res["solver_s"] = E.solver_s
-    res["queries"] = E.queries
+    res["solver_s"] = res.get("solver_s", 0.0) + E.solver_s
+    res["queries"] = res.get("queries", 0) + E.queries
     res["assumptions"] = sorted(set(res["assumptions"]) | E.assumptions_used)
     L = holder.get("L")
     if L is not None:
@@ -318,7 +342,7 @@ def native_eval(fc, a, exclusions=()):
     try:
         if not S.AND(fc.requires(**a)):
             return None
-        for p in _excl_pred(exclusions, a, True):
+        for p in _excl_pred(exclusions, a, True, fc):
             if not p:
                 return None
     except Exception as e:
